@@ -242,6 +242,33 @@ def r18_c(ctx):
                 rr.fail(Finding('R18.c', 'data', fd.qual, site, 'TexArgs.%s rewrites the string before it reaches the group parser '
                                 '(%s): a string with mismatched delimiters can be turned into one the parser accepts, so it '
                                 'is added instead of rejected' % (m_.lstrip('_'), norm(site)[:50]), line=getattr(site, 'lineno', 0)))
+    # what the mutators work with is the coercion of the caller's argument and nothing else: a resolver that can also
+    # answer with an existing element picked by another criterion (its contents, say) makes remove('{x}') hit `{{x}}`
+    for op in ('append', 'insert', 'remove'):
+        fds = cls.methods.get(op)
+        if not fds:
+            continue
+        fd = fds[-1]
+        ps = fd.params()
+        item = ps[-1] if len(ps) > 1 else None
+        for n in ast.walk(fd.node):
+            if isinstance(n, ast.Assign) and len(n.targets) == 1 and isinstance(n.targets[0], ast.Name) and n.targets[0].id == item \
+                    and isinstance(n.value, ast.Call) and isinstance(n.value.func, ast.Attribute) \
+                    and norm(n.value.func.value) in ('self', 'type(self)', 'TexArgs', 'self.__class__') \
+                    and 'coerce' not in n.value.func.attr:
+                h = cls.methods.get(n.value.func.attr)
+                if not h:
+                    continue
+                hp = [q for q in h[-1].params() if q not in ('self', 'cls')]
+                rets = [x for x in ast.walk(h[-1].node) if isinstance(x, ast.Return) and x.value is not None]
+                other = [x for x in rets if not (isinstance(x.value, ast.Call) and isinstance(x.value.func, ast.Attribute)
+                                                 and 'coerce' in x.value.func.attr and len(x.value.args) == 1
+                                                 and isinstance(x.value.args[0], ast.Name) and x.value.args[0].id in hp)]
+                rr.ob(not other, {'operation': op, 'argument_resolved_by': n.value.func.attr})
+                for x in other[:1]:
+                    rr.fail(Finding('R18.c', 'data', h[-1].qual, x, 'TexArgs.%s resolves its argument through %s, which can answer '
+                                    'with `%s` instead of the coerced argument: the group affected is then not the one the '
+                                    'caller\'s string denotes' % (op, n.value.func.attr, norm(x.value)[:40]), line=x.lineno))
     # coercion happens first in insert/remove
     for op in ('insert', 'remove'):
         fds = cls.methods.get(op)
